@@ -1,2 +1,3 @@
 pub mod c06;
+pub mod c10;
 pub mod c11;
